@@ -34,7 +34,7 @@ ASSUMPTIONS = [
   "multi-contact pairs: 'distance along the normal' is read per contact (separation at the contact's witness points); only the deepest contact must reach the support separation",
   "plane-capsule: the witness point on the capsule side is required on the surface of one of the two end spheres (the contact model both engines use), not on the capsule hull",
   "box-box with NATIVECCD disabled is not generated (recorded finding C04 boxbox-prim:extra-deep)",
-  "sphere/capsule pairs whose centres / centre lines are closer than 5 mm (normal = v/|v| ill-conditioned or an arbitrary fallback) and exactly parallel capsules: only (F) is judged there (boundary-skipped)",
+  "sphere/capsule pairs whose centres / centre lines are closer than 5 mm (normal = v/|v| ill-conditioned or an arbitrary fallback): only (F) is judged there (boundary-skipped)",
 ]
 BUDGET = {
   "quick": dict(examples=1200, seconds=150, workers=16),
@@ -311,8 +311,9 @@ def check(case, rec):
       degenerate = vnorm < 5e-3
       lcaps = sum(2.0 * float(mjm.geom_size[g][1]) for g, t in ((g1, t1), (g2, t2)) if t == "capsule")
       tolS += 2e-5 * lcaps / max(vnorm, 5e-3)
-      if (t1, t2) == ("capsule", "capsule"):
-        degenerate |= np.linalg.norm(np.cross(A["mat"][:, 2], B["mat"][:, 2])) < 1e-3
+      # (parallel capsules are not degenerate for the witness / separation / translation tests: any pair of closest points along the overlap is
+      #  valid, the normal is perpendicular to the axes and dist is the separation; only the closed-form *position* is non-unique, and
+      #  closed_form() returns None there)
     # deep convex penetrations: EPA depth/normal/witnesses are not reliable in any implementation (C04)
     deep = False
     if not prim:
